@@ -6,9 +6,11 @@ package cache
 
 // get-or-compute (C18): a live entry is returned without calling cb; otherwise cb is called exactly once, its result is
 // returned as is, a success is stored under the key and a failure leaves the cache exactly as it was.
+// (C08 too: the callback — a DNS lookup, a public-IP exchange — runs with no lock of the cache helper held, so lookups for
+// different keys are never serialised behind one another's timeouts: obligation callback.nolock)
 //@ func GetWithExpiration
 //@ inline
-//@ safety C18
+//@ safety C18 C08
 //@ requires[pre.cb]          cb != nil
 //@ requires[pre.cache.type]  cached(key) ==> cachedAs(key, T)
 //@ ensures[C18.cache.hit]    old(cached(key)) ==> calls(cb) == old(calls(cb)) && ret1 == nil && ret0 == old(cachedval(key, T))
